@@ -449,6 +449,10 @@ class ExprMixin:
 
     def eq(self, a: V, b: V):
         """z3 Bool for python a == b."""
+        if hasattr(self.world, "eq_hook"):
+            h = self.world.eq_hook(self, a, b)
+            if h is not None:
+                return h
         ia, ib = self.as_int_term(a), self.as_int_term(b)
         if ia is not None and ib is not None:
             if isinstance(a, VEnum) and isinstance(b, VEnum) and a.enum != b.enum:
@@ -811,9 +815,23 @@ class ExprMixin:
                     out.append(self.ev(n.elt, e2))
             return VList(out, mutable)
         # symbolic-length source: pointwise map, no filter, pure element expr
-        if g.ifs:
-            raise OutOfSubset("filtered comprehension over a symbolic sequence")
         seq = it
+        if g.ifs:
+            # over-approximation: some sequence of unknown length <= len(source) whose
+            # elements have the type of the element expression (content unknown)
+            i0 = z3.Int(self.fresh_name("i!compf"))
+            e2 = Env(env)
+            self.pure_mode += 1
+            try:
+                self.bind_target(g.target, self.seq_get_pure(seq, i0), e2)
+                val = self.ev(n.elt, e2)
+            finally:
+                self.pure_mode -= 1
+            r = self.fresh("filtered", Seq(self.infer_elem(val)))
+            self.assume(z3.And(r.length >= 0, r.length <= seq.length))
+            r.mutable = mutable
+            self.assumptions_used.add("filtered comprehension over a symbolic sequence abstracted to an arbitrary shorter sequence (sound over-approximation)")
+            return r
         i = z3.Int(self.fresh_name("i!comp"))
         e2 = Env(env)
         self.pure_mode += 1
